@@ -147,7 +147,7 @@ func scene3(t *rapid.T, cells int) (sdf.SDF3, string, string, bool) {
 		L := 50.0
 		th := g.LogUniform(t, "thickness", 0.05, 2)
 		bx, _ := sdf.Box3D(v3.Vec{X: 30, Y: 30, Z: th}, 0)
-		m := sdf.Translate3d(v3.Vec{X: g.Coord(t, "px", 5), Y: g.Coord(t, "py", 5), Z: g.Coord(t, "pz", 5)}).Mul(sdf.Rotate3d(v3.Vec{X: 1, Y: rapid.Float64Range(-1, 1).Draw(t, "ay"), Z: rapid.Float64Range(-1, 1).Draw(t, "az")}, g.Angle(t, "tilt")))
+		m := sdf.Translate3d(v3.Vec{X: g.Coord(t, "px", 5), Y: g.Coord(t, "py", 5), Z: g.Coord(t, "pz", 5)}).Mul(sdf.Rotate3d(v3.Vec{X: 1, Y: g.F(-1, 1).Draw(t, "ay"), Z: g.F(-1, 1).Draw(t, "az")}, g.Angle(t, "tilt")))
 		s := sdf.Transform3D(bx, m)
 		return lat.Rebox3{S: s, BB: sdf.Box3{Min: v3.Vec{X: -L / 2, Y: -L / 2, Z: -L / 2}, Max: v3.Vec{X: L / 2, Y: L / 2, Z: L / 2}}}, kind, fmt.Sprintf("plate thickness %g", th), true
 	}
